@@ -90,6 +90,7 @@ CYCLES = {
     "thread-chan-cancelled-waiter-then-close": "(let [c (ev/thread-chan 0) f (ev/spawn (protect (ev/take c)))] (ev/sleep 0) (ev/cancel f :stop) (ev/sleep 0) (ev/chan-close c))",
     "thread-chan-cancelled-giver-then-close": "(let [c (ev/thread-chan 0) f (ev/spawn (protect (ev/give c 1)))] (ev/sleep 0) (ev/cancel f :stop) (ev/sleep 0) (ev/chan-close c))",
     "chan-cancelled-waiter-then-close": "(let [c (ev/chan 0) f (ev/spawn (protect (ev/take c)))] (ev/sleep 0) (ev/cancel f :stop) (ev/sleep 0) (ev/chan-close c))",
+    "spawn-file-redirect": "(let [f (file/open \"/dev/null\" :w) p (os/spawn [\"sim-child\" \"w10\" \"x0\"] :p {:out f})] (os/proc-wait p) (os/proc-close p) (file/close f))",
     "to-file-less": "(let [[r w] (os/pipe)] (ev/write w (string/repeat \"x\" 5000)) (:close w) (ev/read r :all) (:close r))",
 }
 # counters that must not grow at all between N1 and N2 cycles, and those with a constant allowance
@@ -167,7 +168,7 @@ class C20(Driver):
         if plan["kind"] == "cycle":
             body = " ".join("(do %s)" % CYCLES[k] for k in plan["cycles"])
             A("(defn cycle [] %s (ev/sleep 0.001))" % body)
-            A("(defn snap [n] (gccollect) (ev/sleep 0.02) (gccollect) (gccollect) (sim/ev :snap n (sim/stats)))")
+            A("(defn snap [n] (sim/ev :presnap n (sim/stats)) (gccollect) (ev/sleep 0.02) (gccollect) (gccollect) (sim/ev :snap n (sim/stats)))")
             A("(defn main []")
             A("  (try (do")
             A("    (repeat %d (cycle))" % plan["n1"])
@@ -241,6 +242,7 @@ class C20(Driver):
             if oc != "ok":
                 return [Violation("C20/cycle/loop-does-not-return/cycle=%s" % tag, evs[-1].payload if evs else "")]
             snaps = {}
+            presnaps = {}
             for e in evs:
                 if e.kind == "snap":
                     n, rest = e.payload.split(" ", 1)
@@ -252,6 +254,10 @@ class C20(Driver):
                         except ValueError:
                             pass
                     snaps[int(n)] = d
+                elif e.kind == "presnap":
+                    n, rest = e.payload.split(" ", 1)
+                    toks = rest.strip("{}").split(" ")
+                    presnaps[int(n)] = {a.lstrip(":"): int(float(b)) for a, b in zip(toks[0::2], toks[1::2]) if b.lstrip("-").replace(".", "").isdigit()}
                 elif e.kind == "cycle-error":
                     V("C20/cycle/raised/cycle=%s" % tag, e.payload[:200])
             if plan["n1"] in snaps and plan["n2"] in snaps:
@@ -268,6 +274,16 @@ class C20(Driver):
                           "%s: %d after %d cycles, %d after %d cycles (%.2f per cycle)" % (k, a.get(k, 0), plan["n1"], b.get(k, 0), plan["n2"], per))
             elif not vs:
                 V("C20/cycle/snapshots-missing/cycle=%s" % tag, "")
+            # descriptors must not wait for the collector: a cycle that closes everything it can close keeps the count
+            # of open descriptors flat *before* any collection, too (the default collection interval is 4 MB of
+            # allocation - thousands of such cycles)
+            # (server-handler-error: the handler raises without closing its connection - the program's omission)
+            relies_on_gc = any("gccollect" in CYCLES[k] or "drop" in k or k == "server-handler-error" for k in plan["cycles"])
+            if not relies_on_gc and plan["n1"] in presnaps and plan["n2"] in presnaps and res.stats.get("end", {}).get("gcs", "0") in ("0", 0):
+                a, b = presnaps[plan["n1"]], presnaps[plan["n2"]]
+                if b.get("fds", 0) - a.get("fds", 0) > 8:
+                    V("C20/steady-state/fds-grow-until-a-collection/cycle=%s" % tag,
+                      "open descriptors before any collection: %d after %d cycles, %d after %d cycles" % (a.get("fds", 0), plan["n1"], b.get("fds", 0), plan["n2"]))
             # at exit nothing may be left registered
             end = res.stats.get("end", {})
             if end and (int(end.get("listeners", 0)) or int(end.get("timers", 0))):
